@@ -222,17 +222,44 @@ pub fn flip_noop_options(case: &Case) -> Case {
         }
         // bystanders: unsigned headers whose names mean something elsewhere in AWS's protocols or to proxies, added
         // where the request has no header of that name (at the front for every second request, else at the end)
-        let bystanders: [(&str, &[u8]); 9] = [
-            ("X-Amz-Content-Sha256", b"e3b0c44298fc1c149afbf4c8996fb92427ae41e4649b934ca495991b7852b855"),
-            ("X-Amz-Expires", b"604800"),
-            ("Expires", b"Thu, 01 Jan 2026 00:00:00 GMT"),
-            ("Content-Length", b"0"),
-            ("Transfer-Encoding", b"chunked"),
-            ("X-Forwarded-Proto", b"http"),
-            ("X-Forwarded-Host", b"other.example.com"),
-            ("X-Forwarded-Port", b"80"),
-            ("X-HTTP-Method-Override", b"DELETE"),
+        let body_len = case.wire.body.len().to_string();
+        let hb = crate::core::h64(&(&case.wire.uri, &case.wire.headers, case.wire.body.len(), "bystanders"));
+        let mut bystanders: Vec<(String, Vec<u8>)> = vec![
+            ("X-Amz-Content-Sha256".into(), b"e3b0c44298fc1c149afbf4c8996fb92427ae41e4649b934ca495991b7852b855".to_vec()),
+            ("X-Amz-Expires".into(), b"604800".to_vec()),
+            ("Expires".into(), b"Thu, 01 Jan 2026 00:00:00 GMT".to_vec()),
+            // an accurate Content-Length for half of the requests, a zero one for the others
+            ("Content-Length".into(), if hb % 2 == 0 { body_len.into_bytes() } else { b"0".to_vec() }),
+            ("Transfer-Encoding".into(), b"chunked".to_vec()),
+            ("Content-Encoding".into(), if hb % 4 < 2 { b"identity".to_vec() } else { b"gzip".to_vec() }),
+            ("X-Forwarded-Proto".into(), b"http".to_vec()),
+            ("X-Forwarded-Host".into(), b"other.example.com".to_vec()),
+            ("X-Forwarded-Port".into(), b"80".to_vec()),
+            ("X-HTTP-Method-Override".into(), b"DELETE".to_vec()),
         ];
+        // six more out of the standard request headers, rotating with the request
+        let pool: [(&str, &[u8]); 30] = [
+            ("Accept", b"*/*"), ("Accept-Encoding", b"gzip, br"), ("Accept-Language", b"en"), ("Cache-Control", b"no-cache=\"authorization\""),
+            ("Content-Language", b"en"), ("Content-Location", b"/other"), ("Content-Disposition", b"form-data; name=\"x\""), ("Content-Range", b"bytes 0-0/1"),
+            ("Content-MD5", b"1B2M2Y8AsgTpgAmY7PhCfg=="), ("Cookie", b"session=1"), ("Forwarded", b"for=10.0.0.1;proto=http;host=other"), ("From", b"a@example.com"),
+            ("If-Match", b"\"etag\""), ("If-None-Match", b"*"), ("If-Modified-Since", b"Thu, 01 Jan 2015 00:00:00 GMT"), ("Keep-Alive", b"timeout=5"),
+            ("Max-Forwards", b"0"), ("Origin", b"https://evil.example"), ("Pragma", b"no-cache"), ("Proxy-Authorization", b"Basic dXNlcjpwYXNz"),
+            ("Range", b"bytes=0-0"), ("Referer", b"https://other.example/?X-Amz-Signature=00"), ("TE", b"trailers"), ("Upgrade", b"h2c"),
+            ("User-Agent", b"aws-sdk-test/1.0"), ("Via", b"1.1 proxy"), ("X-Amz-User-Agent", b"aws-sdk-js/2"), ("X-Amz-Request-Payer", b"requester"),
+            ("X-Requested-With", b"XMLHttpRequest"), ("X-Real-IP", b"10.0.0.2"),
+        ];
+        for k in 0..6u64 {
+            let (n, v) = pool[((hb / 7 + k * 5) % pool.len() as u64) as usize];
+            bystanders.push((n.to_string(), v.to_vec()));
+        }
+        // headers whose VALUE names other headers of this request (hop-by-hop nominations, trailers, variance)
+        let others: Vec<String> = w.headers.iter().map(|(n, _)| n.to_ascii_lowercase()).filter(|n| n != "host").collect();
+        if !others.is_empty() {
+            let list = others.join(", ").into_bytes();
+            bystanders.push(("Connection".into(), list.clone()));
+            bystanders.push(("Trailer".into(), list.clone()));
+            bystanders.push(("Vary".into(), list));
+        }
         // request target in absolute form: the authority of the target is not an input of the signature (the Host
         // header is); for a third of the requests it repeats the first Host value, for a third it names another host
         let hsel = crate::core::h64(&(&case.wire.uri, &case.wire.headers, case.wire.body.len(), "target"));
@@ -252,12 +279,12 @@ pub fn flip_noop_options(case: &Case) -> Case {
         let front = crate::core::h64(&(&case.wire.uri, &case.wire.headers, case.wire.body.len())) % 2 == 0;
         let mut pos = 0;
         for (n, v) in bystanders {
-            if !c.wire.headers.iter().any(|(hn, _)| hn.eq_ignore_ascii_case(n)) {
+            if !c.wire.headers.iter().any(|(hn, _)| hn.eq_ignore_ascii_case(&n)) {
                 if front {
-                    c.wire.headers.insert(pos, (n.to_string(), v.to_vec()));
+                    c.wire.headers.insert(pos, (n, v));
                     pos += 1;
                 } else {
-                    c.wire.headers.push((n.to_string(), v.to_vec()));
+                    c.wire.headers.push((n, v));
                 }
             }
         }
